@@ -1,6 +1,10 @@
 SPECIFICATION Spec
 CONSTANTS
   MaxLen = 5
+  MaxCuts = 8
+  ALPHA = "focus"
+  LEAD = "any"
   FocusGuard = TRUE
-INVARIANTS ChunkIndependent Drained Progress
+  SgrStrict = TRUE
+INVARIANTS ChunkIndependent Drained Progress NoSwallow
 CHECK_DEADLOCK FALSE
